@@ -149,14 +149,14 @@ func init() {
 	moreOps["PARSE"] = func(c Case) string {
 		src := unhex(c.Fields[0])
 		// the same text at another offset first (a cache keyed by text would now hold stale positions)
-		if len(src) <= 4096 {
+		if len(src) <= 512 {
 			parser.Parse(" " + src)
 			parser.Parse("T;\n" + src)
 		}
 		first := fmtParse(parser.Parse(src))
 		// history: Parse is a function of its argument; parse related sources (a prefix, an
 		// extension, a failing and a succeeding one) in between and ask again
-		if len(src) <= 4096 {
+		if len(src) <= 512 {
 			for _, other := range []string{src[:len(src)/2], src + " | count", "T | where (", "T | take 1", src + ";" + src} {
 				parser.Parse(other)
 				if again := fmtParse(parser.Parse(src)); again != first {
